@@ -41,6 +41,10 @@ FORMATS = {
     "default": None,
     "msg": "%message% %current%/%max% |%bar%| %percent:3s%%",
     "bar": "%bar%",
+    # the built-in formats addressed by NAME (set_format("normal") etc.): parsed like the default frames
+    "name-normal": "normal",
+    "name-verbose": "verbose",
+    "name-debug": "debug",
 }
 _CSI = re.compile(r"\x1b\[[0-9;]*[A-Za-z]")
 _TAG = re.compile(r"</?(?:info|comment|b)>")
@@ -437,7 +441,7 @@ def bounded(ctx):
             if ctx.out_of_time():
                 break
             cfg = _cfg(rng.choice(["ansi", "ansi", "plain", "plain", "section", "quiet"]), rng.choice([0, 1, 3, 10, 50, 200]),
-                       rng.choice(["default", "default", "msg", "bar"]), rng.choice([1, 5, 28, 40]), rng.choice([0.0, 0.1, 0.1, 0.5]),
+                       rng.choice(["default", "default", "msg", "bar", "name-normal", "name-verbose", "name-debug"]), rng.choice([1, 5, 28, 40]), rng.choice([0.0, 0.1, 0.1, 0.5]),
                        rng.choice([0, 0, 1, 2, 4]))
             seq = [[rng.choice(DTS)] + list(rng.choice(ops_all)) for _ in range(rng.randint(1, 60))]
             probs, nframes = run_sequence(cfg, seq, clock)
